@@ -24,6 +24,17 @@ import struct
 
 from harness.fw import VERIF, Check, Driver, hexs
 
+PINS = [("androguard/core/dex/__init__.py", "EncodedValue.__init__"),
+        ("androguard/core/dex/__init__.py", "EncodedValue._getintvalue"),
+        ("androguard/core/dex/__init__.py", "EncodedValue._getfloatvalue"),
+        ("androguard/core/dex/__init__.py", "EncodedArray.__init__"),
+        ("androguard/core/dex/__init__.py", "EncodedAnnotation.__init__"),
+        ("androguard/core/dex/__init__.py", "AnnotationElement.__init__"),
+        ("androguard/core/dex/__init__.py", "ClassDataItem.set_static_fields"),
+        ("androguard/decompiler/decompile.py", "DvClass.get_source"),
+        ("androguard/decompiler/decompile.py", "DvClass.get_source_ext"),
+        ("androguard/decompiler/decompile.py", "get_field_init_literal")]
+
 SIGNED = {0x00: 1, 0x02: 2, 0x04: 4, 0x06: 8}
 UNSIGNED = {0x03: 2, 0x17: 4, 0x18: 4, 0x19: 4, 0x1a: 4, 0x1b: 4}
 FLOATS = {0x10: 4, 0x11: 8}
@@ -381,7 +392,7 @@ def gen_evalues(ck, dexasm):
         names = sorted(rng.sample(range(0, 300), rng.randrange(0, 4)))
         return (0x1d, (rng.choice((0, 5, 127, 128, 70000)), [(n, rand_value(depth - 1)) for n in names]))
 
-    n_nested = 1500 if ck.quick else 40000
+    n_nested = 40000 if getattr(ck, 'big', not ck.quick) else 1500
     for _ in range(n_nested):
         v = rand_value(rng.randrange(1, 5))
         data = dexasm.encoded_value(v[0], v[1], v[2] if len(v) > 2 else None, leb_pad=rng.choice((0, 0, 1, 2)))
@@ -394,7 +405,7 @@ def gen_evalues(ck, dexasm):
     out += [(bytes([0x1c, 0x05, 0x00, 0x01]), "malformed"), (bytes([0x1c, 0xff, 0xff, 0xff, 0xff, 0x0f]), "malformed"),
             (bytes([0x1c, 0x01] * 40 + [0x1e]), "deep"), (bytes([0x1d, 0x00, 0x01, 0x00] * 30 + [0x3f]), "deep"),
             (b"", "malformed"), (bytes([0x1c]), "malformed"), (bytes([0x1d, 0x80]), "malformed")]
-    n_rand = 4000 if ck.quick else 200000
+    n_rand = 200000 if getattr(ck, 'big', not ck.quick) else 4000
     for _ in range(n_rand):
         out.append((bytes(rng.randrange(256) for _ in range(rng.randrange(0, 10))), "random"))
     return out
@@ -503,10 +514,11 @@ def make_ref(b):
     return ref
 
 
-SRC_LINE = re.compile(r"^    (?:[\w]+ )*?(\S+) (f\d+)(?: = (.*))?;$")
+SRC_LINE = re.compile(r"^    (?:[\w]+ )*?(\S+) (\w+)(?: = (.*))?;$")
+PRIM_NAME = {"B": "byte", "S": "short", "C": "char", "I": "int", "J": "long", "F": "float", "D": "double", "Z": "boolean"}
 
 
-def build_dex(rng, dexasm, nclasses, overlong=False):
+def build_dex(rng, dexasm, nclasses, overlong=False, dup=None):
     b = dexasm.DexBuilder()
     spec = []
     for ci in range(nclasses):
@@ -519,21 +531,47 @@ def build_dex(rng, dexasm, nclasses, overlong=False):
             fields.append(dexasm.Field("f%d" % fi, proto, 0x9 | (0x10 if rng.random() < 0.5 else 0), init))
             plan.append((proto, init))
         inst = [dexasm.Field("g0", "I", 0x1)] if rng.random() < 0.5 else []
+        if dup is None:
+            dup_here = rng.random() < 0.5
+        else:
+            dup_here = dup
+        if dup_here:
+            # fields sharing one simple name but differing in type (a field_id is class+name+type; emitted by
+            # obfuscators): static/static and static/instance, with and without values, valued one first or last
+            # (the position follows the type index, which the random choice of types varies)
+            name = rng.choice(("a", "dup", "f0"))
+            group, want = {}, rng.randrange(2, 4)
+            while len(group) < want:
+                proto, init = rand_field_init(rng)
+                group[proto] = init
+            shape = rng.randrange(4)          # 0 all valued, 1 only one valued, 2 random, 3 one valued + instance twin
+            keys = sorted(group)
+            keep = rng.choice(keys)
+            fields = [f for f in fields if f.name != name]
+            for proto in keys:
+                init = group[proto]
+                if (shape in (1, 3) and proto != keep) or (shape == 2 and rng.random() < 0.5):
+                    init = None
+                fields.append(dexasm.Field(name, proto, 0x9 | (0x10 if rng.random() < 0.5 else 0), init))
+            if shape == 3 or rng.random() < 0.4:
+                ip = rng.choice([q for q in ("I", "J", "B", "Z", "Ljava/lang/String;", "D", "[I") if q not in group])
+                inst.append(dexasm.Field(name, ip, rng.choice((0x1, 0x2, 0x12))))
+            rng.shuffle(fields)
         ann = None
         if rng.random() < 0.5:
             ann = {"class": [dexasm.Annotation(1, "Lq/Ann;", [("v%d" % k, rand_field_init(rng)[1]) for k in range(rng.randrange(0, 4))]
                                                + ([("arr", (0x1c, [rand_field_init(rng)[1] for _ in range(rng.randrange(0, 4))]))]
                                                   if rng.random() < 0.5 else []))]}
         sv = None
-        if overlong and nf and ci == 0:
-            sv = [(0x04, k) for k in range(nf + rng.randrange(1, 3))]
+        if overlong and fields and ci == 0:
+            sv = [(0x04, k) for k in range(len(fields) + rng.randrange(1, 3))]
         b.add_class("Lq/C%d;" % ci, static_fields=fields, instance_fields=inst, static_values=sv, annotations=ann)
         spec.append((fields, ann, sv))
     data = b.build(leb_pad=rng.choice((0, 0, 1)))
     return b, data, spec
 
 
-def check_dex(ck, dex, drv_reqs, b, data, spec, dexasm, stats, do_source=True):
+def check_dex(ck, dex, drv_reqs, b, data, spec, dexasm, stats, do_source=True, shrink=True):
     """run the real parser on one DEX; returns [(request line, real reply)] for the statics stream and
     calls ck.fail for every static field / annotation element / printed initialiser that is wrong."""
     from androguard.decompiler.decompile import DvClass
@@ -551,8 +589,9 @@ def check_dex(ck, dex, drv_reqs, b, data, spec, dexasm, stats, do_source=True):
             continue
         intent = b.static_values_for(cdef)
         order = sorted(cdef.static_fields, key=lambda f: b.field_idx(cdef.name, f.name, f.type))
+        iorder = sorted(cdef.instance_fields, key=lambda f: b.field_idx(cdef.name, f.name, f.type))
         real_static = [f for f in c.get_fields() if f.get_access_flags() & 0x8]
-        real_by_name = {f.get_name(): f for f in real_static}
+        real_by_key = {(f.get_name(), f.get_descriptor()): f for f in real_static}
         # correspondence: the encoded_array bytes as written, bound to len(static fields)
         if intent is not None:
             arr = dexasm.encoded_array(intent, resolver=b)
@@ -562,58 +601,90 @@ def check_dex(ck, dex, drv_reqs, b, data, spec, dexasm, stats, do_source=True):
                 got.append("-" if iv is None else canon_value(dex, iv, ref))
             drv_reqs.append(("statics %d %s" % (len(order), hexs(arr)), "ok " + ";".join(got)))
         legal = intent is None or len(intent) <= len(order)
-        src_vals = {}
-        if do_source:
-            try:
-                src = DvClass(c, None).get_source()
-                for line in src.split("\n"):
-                    m = SRC_LINE.match(line)
-                    if m:
-                        src_vals[m.group(2)] = m.group(3)
-            except Exception as e:  # noqa
-                ck.fail({"op": "dex", "hex": data.hex()}, "DvClass.get_source raises %r" % e, None, "source", type(e).__name__)
         if not legal:
             stats["overlong"] += 1
             continue
+        names = [f.name for f in order + iorder]
+        if len(set(names)) < len(names):
+            stats["classes_with_same_named_fields"] += 1
+        ccase = {"op": "class",
+                 "static": [[f.name, f.type, f.access, _jsonable(f.init)] for f in cdef.static_fields],
+                 "instance": [[f.name, f.type, f.access] for f in cdef.instance_fields]}
+        expected = []          # (field, expected canonical text or None, init tuple), in class_data (= printing) order
         for i, f in enumerate(order):
-            rf = real_by_name.get(f.name)
+            rf = real_by_key.get((f.name, f.type))
+            if intent is None or i >= len(intent):
+                exp, tup = None, None
+            else:
+                exp, tup = expected_text(b, intent[i]), intent[i]
+            expected.append((f, exp, tup))
+            stats["static_fields"] += 1
+            stats["vt_%s" % (NAMES.get(tup[0], "?") if exp is not None else "none")] += 1
+            case = {"op": "static", "proto": f.type, "init": _jsonable(tup) if exp is not None else None,
+                    "position": i, "nvalues": 0 if intent is None else len(intent), "nfields": len(order)}
+            if len(set(names)) < len(names):
+                case = dict(ccase, position=i)
             if rf is None:
-                ck.fail({"op": "dex", "hex": data.hex()}, "static field missing", None, f.name, sorted(real_by_name))
+                ck.fail(case, "static field missing", None, [f.name, f.type], sorted(real_by_key))
                 continue
             iv = rf.get_init_value()
-            if intent is None or i >= len(intent):
-                exp = None
-            else:
-                exp = expected_text(b, intent[i])
             got = None if iv is None else canon_value(dex, iv, ref)
-            stats["static_fields"] += 1
-            case = {"op": "static", "proto": f.type, "init": _jsonable(intent[i]) if exp is not None else None,
-                    "position": i, "nvalues": 0 if intent is None else len(intent), "nfields": len(order)}
             if got != exp:
                 ck.fail(case, "static field init value differs from the encoded value's meaning", None, exp, got)
-            stats["vt_%s" % (NAMES.get(intent[i][0], "?") if exp is not None else "none")] += 1
-            if do_source and f.name in src_vals:
-                text = src_vals[f.name]
-                if exp is None:
-                    if text is not None:
-                        ck.fail(case, "initialiser printed for a field without value", None, None, text)
-                elif text is None:
-                    ck.fail(case, "no initialiser printed", None, exp, None)
-                else:
-                    if f.type == "Ljava/lang/String;" and exp.startswith("r23:"):
-                        lit = java_literal(text)
-                        want = intent[i][1]
+        for f in iorder:
+            expected.append((f, None, None))
+        if do_source:
+            printed = {}
+            try:
+                dc = DvClass(c, None)
+                printed["get_source"] = [(m.group(1), m.group(2), m.group(3)) for m in
+                                         (SRC_LINE.match(line) for line in dc.get_source().split("\n")) if m]
+                ext = []
+                for kind, items in dc.get_source_ext():
+                    if kind == "FIELD":
+                        d_ = {it[0]: it for it in items}
+                        v = d_["FIELD_VALUE"][1] if "FIELD_VALUE" in d_ else None
+                        if v is not None:
+                            v = v[3:] if v.startswith(" = ") else "?" + v
+                        ext.append((d_["FIELD_TYPE"][1], d_["NAME_FIELD"][1], v))
+                printed["get_source_ext"] = ext
+            except Exception as e:  # noqa
+                ck.fail(dict(ccase, position=0), "DvClass.get_source/get_source_ext raises %r" % e, None, "source", type(e).__name__)
+            for printer, lines in printed.items():
+                if [l[1] for l in lines] != [f.name for f, _, _ in expected]:
+                    ck.fail(dict(ccase, position=0, printer=printer), "field lines differ from the class's fields (order: static, instance)",
+                            None, [f.name for f, _, _ in expected], [l[1] for l in lines])
+                    continue
+                # the i-th field line belongs to the i-th field (name AND type): never match by name
+                for i, ((ftxt, _, text), (f, exp, tup)) in enumerate(zip(lines, expected)):
+                    case = dict(ccase, position=i, printer=printer)
+                    if shrink and names.count(f.name) > 1:
+                        # smaller class: only the fields that share this name (reported when it still fails)
+                        small = {"op": "class", "printer": printer,
+                                 "static": [x for x in ccase["static"] if x[0] == f.name],
+                                 "instance": [x for x in ccase["instance"] if x[0] == f.name]}
+                        if small["static"] and _class_fails(dex, dexasm, small):
+                            case = small
+                    if f.type in PRIM_NAME and ftxt != PRIM_NAME[f.type]:
+                        ck.fail(case, "field line %d has another type than the field at that position" % i, None, PRIM_NAME[f.type], ftxt)
+                        continue
+                    if exp is None:
+                        stats["printed_no_value"] += 1
+                        if text is not None:
+                            ck.fail(case, "initialiser printed for a field without value", None, None, "%s %s = %s" % (ftxt, f.name, text))
+                    elif text is None:
+                        ck.fail(case, "no initialiser printed", None, exp, None)
+                    elif f.type == "Ljava/lang/String;" and exp.startswith("r23:"):
                         stats["printed_strings"] += 1
-                        if lit != ("string", dexasm.norm_str(want)):
-                            ck.fail(case, "printed String initialiser is another string", None, want, text)
+                        if java_literal(text) != ("string", dexasm.norm_str(tup[1])):
+                            ck.fail(case, "printed String initialiser is another string", None, tup[1], text)
                     else:
                         ok = literal_matches(f.type, exp, text)
                         if ok is not None:
                             stats["printed_literals"] += 1
                             if not ok:
-                                ck.fail(case, "printed initialiser does not denote the value", None, exp, text)
-            elif do_source:
-                ck.fail(case, "field line not found in DvClass.get_source", None, f.name, sorted(src_vals))
+                                ck.fail(case, "printed initialiser does not denote the field's value", None,
+                                        "%s %s = <%s>" % (ftxt, f.name, exp), "%s %s = %s" % (ftxt, f.name, text))
         # annotation elements
         if ann:
             want = ann["class"][0]
@@ -632,6 +703,15 @@ def check_dex(ck, dex, drv_reqs, b, data, spec, dexasm, stats, do_source=True):
             if got != exp:
                 ck.fail({"op": "annotation", "elements": _jsonable(list(want.elements))},
                         "annotation element values differ from their encoded meaning", None, exp, got)
+
+
+def _class_fails(dex, dexasm, case):
+    col = _Collect(None)
+    b = dexasm.DexBuilder()
+    st = [dexasm.Field(n, t, a, _init_from_json(i)) for n, t, a, i in case["static"]]
+    b.add_class("Lq/R;", static_fields=st, instance_fields=[dexasm.Field(n, t, a) for n, t, a in case["instance"]])
+    check_dex(col, dex, [], b, b.build(), [(st, None, None)], dexasm, _Stats(), shrink=False)
+    return bool(_Collect.last)
 
 
 def _jsonable(x):
@@ -756,8 +836,18 @@ def run_case(ck, dex, cm, dexasm, case, report=True):
         data = b.build()
         stats = _Stats()
         n0 = len(ck.failures)
-        check_dex(ck if report else _Silent(ck), dex, [], b, data, [(b.classes[0].static_fields, None, None)], dexasm, stats)
-        fs = ck.failures[n0:]
+        check_dex(ck if report else _Collect(ck), dex, [], b, data, [(b.classes[0].static_fields, None, None)], dexasm, stats)
+        fs = ck.failures[n0:] if report else _Collect.last
+        return (fs[0]["expected"], fs[0]["observed"]) if fs else ("as encoded", "as encoded")
+    if op == "class":
+        b = dexasm.DexBuilder()
+        st = [dexasm.Field(n, t, a, _init_from_json(i)) for n, t, a, i in case["static"]]
+        ins = [dexasm.Field(n, t, a) for n, t, a in case["instance"]]
+        b.add_class("Lq/R;", static_fields=st, instance_fields=ins)
+        data = b.build()
+        n0 = len(ck.failures)
+        check_dex(ck if report else _Collect(ck), dex, [], b, data, [(st, None, None)], dexasm, _Stats(), shrink=False)
+        fs = ck.failures[n0:] if report else _Collect.last
         return (fs[0]["expected"], fs[0]["observed"]) if fs else ("as encoded", "as encoded")
     if op == "print":
         exp = case.get("expected")
@@ -774,6 +864,17 @@ class _Stats(dict):
         return 0
 
 
+class _Collect:
+    """collects failures without reporting them (replay)"""
+    last = []
+
+    def __init__(self, ck):
+        _Collect.last = []
+
+    def fail(self, case, what, key=None, expected=None, observed=None):
+        _Collect.last.append({"case": case, "what": what, "expected": expected, "observed": observed})
+
+
 class _Silent:
     def __init__(self, ck):
         self.failures = ck.failures
@@ -785,11 +886,13 @@ class _Silent:
 # ------------------------------------------------------------------ the check
 def run(ck: Check):
     import harness.dexasm as dexasm
+    ck.pins_changed(PINS)          # a modelled function changed: not a verdict, thorough sizes in the quick tier
+    ck.big = (not ck.quick) or getattr(ck, "escalated", False)
     dex, cm = _real()
     ck.run_gen("valuetypes")
     ck.prove(exes=["drv_C04"])
     drv = Driver("drv_C04")
-    ck.rule = ("evalue: all 32 types x 8 value_args x 11+3 boundary/random payloads (exact, with tail, truncated), values "
+    ck.rule = ("[statics: classes with same-named fields of different types included, printed initialisers matched to fields by position (name, type) for get_source and get_source_ext] evalue: all 32 types x 8 value_args x 11+3 boundary/random payloads (exact, with tail, truncated), values "
                "written by the independent writer for every scalar type x width x {-1, MIN, MAX, 0x80.., 0x7f.., random}, "
                "random nested arrays/annotations (depth<=4, padded uleb128), random bytes; DEX files with random static "
                "fields/annotations (sign boundaries favoured); distinct = distinct byte string / (proto, init, position); "
@@ -829,7 +932,7 @@ def run(ck: Check):
                     None, exp, r)
     dist["ev_judged_by_format_oracle"] = judged
     ck.cover(evaluations=len(cases), distinct=(("ev", d) for d, _ in cases if len(d) > 1),
-             samples=[{"evalue": hexs(cases[i][0]), "real": real[i]} for i in (13, 2200, len(cases) - 4000 - 7)],
+             samples=[{"evalue": hexs(cases[i][0]), "real": real[i]} for i in (13, 2200, len(cases) // 2)],
              dist=dict(dist))
 
     # ---- bind: set_static_fields on mocks
@@ -852,7 +955,7 @@ def run(ck: Check):
         lo, hi = RANGES[proto]
         vals = {lo, hi, lo + 1, hi - 1, 0, 1, 9, 10, 15, 16, 255, 256, 100, 1000}
         vals |= {-1, -9, -10, -16, -255, -128, 127, 128} if lo < 0 else set()
-        vals |= {rng.randrange(lo, hi + 1) for _ in range(60 if ck.quick else 5000)}
+        vals |= {rng.randrange(lo, hi + 1) for _ in range(5000 if ck.big else 60)}
         vals |= {2 ** k for k in range(64) if lo <= 2 ** k <= hi} | {-(2 ** k) for k in range(64) if lo <= -(2 ** k) <= hi}
         vals |= {2 ** k - 1 for k in range(64) if lo <= 2 ** k - 1 <= hi}
         for v in sorted(x for x in vals if lo <= x <= hi):
@@ -876,7 +979,7 @@ def run(ck: Check):
 
     # ---- statics: whole DEX files
     stats = _Stats()
-    ndex = 60 if ck.quick else 1500
+    ndex = 1500 if ck.big else 60
     pairs = []
     seen = set()
     for k in range(ndex):
